@@ -47,53 +47,36 @@ theorem dump_counts_exact (p : Option String) (calls : List MOp) (s₀ s' : MSta
   simp [count, mBegin, dget]
 
 /-- **exact iteration counts**: in a structured session (file traces declared after `beginCollect`,
-    then only the calls a loop nest makes, then `endCollect`), for every declared trace whose rank
-    was registered, `Compute.numIters` of its file is the number of `addUse` calls for that rank and
-    type — whatever the flush threshold, whatever the file held before. -/
+    then only the calls a loop nest makes, then `endCollect`), `Compute.numIters` of the file of EVERY
+    declared trace is the number of `addUse` calls for that rank and type — whatever the flush
+    threshold, whatever an earlier session left in a file of the same name, whether or not the rank
+    was ever registered. -/
 theorem numIters_eq_uses (p : String) (keys : List TKey) (body : List MOp) (s₀ s' : MState) (rs : List MRet)
     (hbody : ∀ op ∈ body, op.inBody = true)
     (hrun : runOps (openOps p keys ++ body ++ [.endCollect]) s₀ = some (rs, s'))
-    (r ty : String) (hk : (r, ty) ∈ keys) (hreg : registers r body = true) :
+    (r ty : String) (hk : (r, ty) ∈ keys) :
     numIters (fileOf s' p r ty) = nUse r ty body := by
   obtain ⟨s2, hs2, hc2, hend⟩ := session_inv hbody hrun hk
-  rw [hreg] at hc2
-  rw [numIters, mEnd_file hs2 hc2 hend]
-  omega
+  cases hreg : registers r body with
+  | true =>
+    rw [hreg] at hc2
+    rw [numIters, mEnd_file hs2 hc2 hend]
+    omega
+  | false =>
+    rw [hreg] at hc2
+    obtain ⟨h1, h2⟩ := mEnd_file_unstarted hs2 hc2 hend
+    rw [h1, h2]; rfl
 
-/-- **the leak** (what the code does for a declared trace whose rank is never registered in the
-    session — its loop never starts): the file is exactly what it was before the session. -/
-theorem unregistered_trace_keeps_file (p : String) (keys : List TKey) (body : List MOp) (s₀ s' : MState)
+/-- a declared trace whose rank is never registered in the session (its loop never starts) ends the
+    session with a new, empty file: nothing of an earlier session survives. -/
+theorem unregistered_trace_file_empty (p : String) (keys : List TKey) (body : List MOp) (s₀ s' : MState)
     (rs : List MRet) (hbody : ∀ op ∈ body, op.inBody = true)
     (hrun : runOps (openOps p keys ++ body ++ [.endCollect]) s₀ = some (rs, s'))
     (r ty : String) (hk : (r, ty) ∈ keys) (hreg : registers r body = false) :
-    fileOf s' p r ty = fileOf s₀ p r ty := by
+    fileOf s' p r ty = [] := by
   obtain ⟨s2, hs2, hc2, hend⟩ := session_inv hbody hrun hk
   rw [hreg] at hc2
-  exact mEnd_file_stale hs2 hc2 hend
-
-/-- hence **the iteration count is exact for every declared trace as long as no stale file is in
-    the way** (fresh prefix, or the earlier file empty): registered or not. -/
-theorem numIters_eq_uses_partial (p : String) (keys : List TKey) (body : List MOp) (s₀ s' : MState)
-    (rs : List MRet) (hbody : ∀ op ∈ body, op.inBody = true)
-    (hrun : runOps (openOps p keys ++ body ++ [.endCollect]) s₀ = some (rs, s'))
-    (r ty : String) (hk : (r, ty) ∈ keys)
-    (hfresh : registers r body = false → numIters (fileOf s₀ p r ty) = 0)
-    (huse : registers r body = false → nUse r ty body = 0) :
-    numIters (fileOf s' p r ty) = nUse r ty body := by
-  cases hreg : registers r body with
-  | true => exact numIters_eq_uses p keys body s₀ s' rs hbody hrun r ty hk hreg
-  | false =>
-    rw [unregistered_trace_keeps_file p keys body s₀ s' rs hbody hrun r ty hk hreg, hfresh hreg, huse hreg]
-
-/-- the full statement (without the freshness hypothesis) is false: **witness** — after a session
-    that traced rank K and left one row, a session that declares the same trace and never reaches
-    rank K reports one iteration; in a fresh process it reports none. -/
-theorem stale_file_witness :
-    let earlier : List MOp := openOps "p" [("K", "iter")] ++ [.registerRank "K", .addUse "K" 3 0 "iter" none, .endCollect]
-    let sess : List MOp := openOps "p" [("K", "iter")] ++ [] ++ [.endCollect]
-    ((runOps (earlier ++ sess) MState.init).map (fun x => numIters (fileOf x.2 "p" "K" "iter")) = some 1) ∧
-    ((runOps sess MState.init).map (fun x => numIters (fileOf x.2 "p" "K" "iter")) = some 0) := by
-  decide
+  exact (mEnd_file_unstarted hs2 hc2 hend).1
 
 /-! ## B. kernels (the loop nests of FtModel/MetricsKernel.lean) -/
 
@@ -150,12 +133,12 @@ theorem kernel_calls_safe (k : Kernel) (z : ATree) (ops : List Operand) (p : Str
     a collecting session around the kernel — any prefix, any set of traces, any earlier state —
     completes and leaves the tensor the kernel computes with collection off. -/
 theorem kernel_transparent_partial (k : Kernel) (z : ATree) (ops : List Operand) (p : String) (keys : List TKey)
-    (s₀ : MState) (hok : assertsOk (kernelEvents k z ops) = true) :
+    (s₀ : MState) (hok : assertsOk (wtrOf keys) (kernelEvents k z ops) = true) :
     ∃ s', kernelSession k z ops p keys s₀ = some (runPlain k z ops, s') := by
   obtain ⟨rs, s', h⟩ := kernel_calls_safe k z ops p keys s₀
   refine ⟨s', ?_⟩
   simp only [kernelEvents] at hok h
-  show (if assertsOk (runK k.declared k.loops k.out z ops).2 = true then _ else none) = _
+  show (if assertsOk (wtrOf keys) (runK k.declared k.loops k.out z ops).2 = true then _ else none) = _
   rw [if_pos hok, h]; rfl
 
 /-- … which is guaranteed when the output tensor was created with a shape -/
@@ -165,17 +148,29 @@ theorem kernel_transparent_declared (k : Kernel) (z : ATree) (ops : List Operand
   apply kernel_transparent_partial
   unfold kernelEvents
   rw [hd]
-  exact assertsOk_of_declared _ _ _ _
+  exact assertsOk_of_declared _ _ _ _ _
 
-/-- the unrestricted statement is false: **witness** — accumulating `a` into an output vector that
-    already holds an element and was created without a shape aborts with collection on and runs with
-    collection off. -/
+/-- … and also when the write trace of no populate destination is collected: then every kernel,
+    whatever the shape declarations, is transparent -/
+theorem kernel_transparent_untraced (k : Kernel) (z : ATree) (ops : List Operand) (p : String) (keys : List TKey)
+    (s₀ : MState) (hw : ∀ v, (v, "populate_write_0") ∉ keys) :
+    ∃ s', kernelSession k z ops p keys s₀ = some (runPlain k z ops, s') := by
+  apply kernel_transparent_partial
+  apply assertsOk_of_untraced
+  intro v
+  simp only [wtrOf, List.contains_eq_mem, decide_eq_false_iff_not]
+  exact hw v
+
+/-- the unrestricted statement is false: **witness** — inserting `a`'s coordinate 1 below the
+    element 5 of an output vector created without a shape, while the output's write trace is
+    collected, aborts with collection on and runs with collection off. -/
 theorem kernel_assert_witness :
     let k : Kernel := { loops := ["K"], out := ["K"], declared := false }
-    let z : ATree := ⟨1, [((0 : Int), (1 : Int))]⟩
+    let z : ATree := ⟨1, [((5 : Int), (1 : Int))]⟩
     let a : Operand := { ranks := ["K"], t := ⟨1, [((1 : Int), (2 : Int))]⟩ }
-    (kernelSession k z [a] "p" [] MState.init).isNone = true ∧
-    (show List (Int × Int) from castT 1 (runPlain k z [a]) []) = [((0 : Int), (1 : Int)), ((1 : Int), (2 : Int))] := by
+    (kernelSession k z [a] "p" [("K", "populate_write_0")] MState.init).isNone = true ∧
+    (kernelSession k z [a] "p" [("K", "iter")] MState.init).isSome = true ∧
+    (show List (Int × Int) from castT 1 (runPlain k z [a]) []) = [((1 : Int), (2 : Int)), ((5 : Int), (1 : Int))] := by
   decide
 
 theorem sumInc_traces (line metric : String) (keys : List TKey) :
@@ -218,15 +213,14 @@ theorem kernel_counts_exact (k : Kernel) (z : ATree) (ops : List Operand) (p : S
     · rw [key, sumInc_append, sumInc_append, sumInc_traces]; simp [sumInc, kernelEvents, b3]
   · cases h
 
-/-- **iteration count = loop bodies** (partial: no rank of format "U", and no stale file of a rank
-    the kernel never reaches): for every rank traced with the "iter" trace, `Compute.numIters` of its
-    file is the number of loop bodies the kernel executed at that rank. -/
+/-- **iteration count = loop bodies** (partial: no rank of format "U"): for every rank traced with the
+    "iter" trace — reached by the kernel or not, whatever file an earlier session left —
+    `Compute.numIters` of its file is the number of loop bodies the kernel executed at that rank. -/
 theorem kernel_numIters_eq_bodies_partial (k : Kernel) (z : ATree) (ops : List Operand) (p : String)
     (keys : List TKey) (s₀ s' : MState) (out : ATree)
     (hU : ∀ o ∈ ops, o.uShape = none)
     (h : kernelSession k z ops p keys s₀ = some (out, s'))
-    (r : String) (hk : (r, "iter") ∈ keys)
-    (hfresh : registers r (callsOf (kernelEvents k z ops)) = false → numIters (fileOf s₀ p r "iter") = 0) :
+    (r : String) (hk : (r, "iter") ∈ keys) :
     numIters (fileOf s' p r "iter") = nBody r (kernelEvents k z ops) := by
   unfold kernelSession at h
   simp only at h
@@ -237,8 +231,7 @@ theorem kernel_numIters_eq_bodies_partial (k : Kernel) (z : ATree) (ops : List O
     have hub := runK_ub k.declared k.loops k.out z ops hU r
     show _ = nBody r (runK k.declared k.loops k.out z ops).2
     rw [← hub]
-    exact numIters_eq_uses_partial p keys _ s₀ s1 rs (inBody_of_safe _ [] hsafe) hrun r "iter" hk hfresh
-      (fun hreg => nUse_zero_of_safe r "iter" _ [] hsafe rfl hreg)
+    exact numIters_eq_uses p keys _ s₀ s1 rs (inBody_of_safe _ [] hsafe) hrun r "iter" hk
   · cases h
 
 /-- the "U" hypothesis is needed: **witness** — a leaf rank of format "U" and shape 2 runs two loop
@@ -252,17 +245,16 @@ theorem kernel_formatU_witness :
   decide
 
 /-- **session isolation for kernels, counter side** (partial: the collecting-only assertion must not
-    fire; iteration counts only for ranks the kernel reaches): from ANY two earlier states (different
+    fire): from ANY two earlier states (different
     thresholds, different files, sessions left open, …) the collecting session around the same
     kernel completes with the same tensor, the same value of every counter, and the same iteration
-    count in the file of every declared trace whose rank the kernel reaches. -/
+    count in the file of every declared trace. -/
 theorem kernel_session_isolated_partial (k : Kernel) (z : ATree) (ops : List Operand) (p : String) (keys : List TKey)
-    (s₁ s₂ : MState) (hok : assertsOk (kernelEvents k z ops) = true) :
+    (s₁ s₂ : MState) (hok : assertsOk (wtrOf keys) (kernelEvents k z ops) = true) :
     ∃ s₁' s₂', kernelSession k z ops p keys s₁ = some (runPlain k z ops, s₁') ∧
       kernelSession k z ops p keys s₂ = some (runPlain k z ops, s₂') ∧
       (∀ line metric, count s₁' line metric = count s₂' line metric) ∧
-      (∀ r ty, (r, ty) ∈ keys → registers r (callsOf (kernelEvents k z ops)) = true →
-        numIters (fileOf s₁' p r ty) = numIters (fileOf s₂' p r ty)) := by
+      (∀ r ty, (r, ty) ∈ keys → numIters (fileOf s₁' p r ty) = numIters (fileOf s₂' p r ty)) := by
   obtain ⟨rs1, t1, h1⟩ := kernel_calls_safe k z ops p keys s₁
   obtain ⟨rs2, t2, h2⟩ := kernel_calls_safe k z ops p keys s₂
   have hsafe := runK_safe k.declared k.loops k.out z ops []
@@ -278,17 +270,17 @@ theorem kernel_session_isolated_partial (k : Kernel) (z : ATree) (ops : List Ope
     · rfl
   refine ⟨t1, t2, ?_, ?_, ?_, ?_⟩
   · simp only [kernelEvents] at hok h1
-    show (if assertsOk (runK k.declared k.loops k.out z ops).2 = true then _ else none) = _
+    show (if assertsOk (wtrOf keys) (runK k.declared k.loops k.out z ops).2 = true then _ else none) = _
     rw [if_pos hok, h1]; rfl
   · simp only [kernelEvents] at hok h2
-    show (if assertsOk (runK k.declared k.loops k.out z ops).2 = true then _ else none) = _
+    show (if assertsOk (wtrOf keys) (runK k.declared k.loops k.out z ops).2 = true then _ else none) = _
     rw [if_pos hok, h2]; rfl
   · intro line metric
     rw [dump_counts_exact (some p) _ s₁ t1 rs1 hb (by simpa [openOps] using h1),
       dump_counts_exact (some p) _ s₂ t2 rs2 hb (by simpa [openOps] using h2)]
-  · intro r ty hk hreg
-    rw [numIters_eq_uses p keys _ s₁ t1 rs1 hin h1 r ty hk hreg,
-      numIters_eq_uses p keys _ s₂ t2 rs2 hin h2 r ty hk hreg]
+  · intro r ty hk
+    rw [numIters_eq_uses p keys _ s₁ t1 rs1 hin h1 r ty hk,
+      numIters_eq_uses p keys _ s₂ t2 rs2 hin h2 r ty hk]
 
 /-! ## non-vacuity: the hypotheses are met by non-trivial values, the conclusions say something -/
 section
@@ -319,8 +311,8 @@ private def hist1 : List MOp :=
 -- threshold 2, so the three K rows are flushed in two pieces), K is registered, 3 uses, 2 muls
 example : ((runOps hist1 MState.init).bind (fun h => runOps (openOps "p" keys1 ++ body1 ++ [.endCollect]) h.2)).map
     (fun x => (numIters (fileOf x.2 "p" "K" "iter"), count x.2 "Compute" "payload_mul",
-      -- N is declared but never registered: the earlier session's row is still there
-      numIters (fileOf x.2 "p" "N" "iter"))) = some (3, 2, 1) := by decide
+      -- N is declared but never registered: the earlier session's row is gone, the file is new and empty
+      numIters (fileOf x.2 "p" "N" "iter"), fileOf x.2 "p" "N" "iter")) = some (3, 2, 0, []) := by decide
 example : (∀ op ∈ body1, op.inBody = true) ∧ registers "K" body1 = true ∧ nUse "K" "iter" body1 = 3 ∧
     registers "N" body1 = false ∧ sumInc "Compute" "payload_mul" body1 = 2 := by decide
 
@@ -330,8 +322,11 @@ private def aCol : Operand :=
   { ranks := ["M", "K"], t := ⟨2, [((0 : Int), [((0 : Int), (1 : Int)), ((1 : Int), (2 : Int))]), ((1 : Int), [((0 : Int), (-1 : Int)), ((2 : Int), (4 : Int))])]⟩ }
 
 -- kernel_transparent_*: the assertion is reached (the output is revisited while non-empty) and passes
-example : assertsOk (kernelEvents kCol ⟨1, []⟩ [aCol]) = true ∧
-    (kernelEvents kCol ⟨1, []⟩ [aCol]).any (fun e => match e with | .assertShape _ _ => true | _ => false) = true := by
+example : assertsOk (wtrOf [("K", "populate_write_0")]) (kernelEvents kCol ⟨1, []⟩ [aCol]) = true ∧
+    (kernelEvents kCol ⟨1, []⟩ [aCol]).any (fun e => match e with | .assertShape _ _ _ => true | _ => false) = true ∧
+    -- the same kernel into an undeclared output: the second row inserts 0 below 1; fine unless the write trace is on
+    assertsOk (wtrOf [("K", "iter"), ("K", "populate_read_0")]) (kernelEvents { kCol with declared := false } ⟨1, []⟩ [aCol]) = true ∧
+    assertsOk (wtrOf [("K", "populate_write_0")]) (kernelEvents { kCol with declared := false } ⟨1, []⟩ [aCol]) = false := by
   decide
 -- … the sum at k = 0 cancels (1 + -1) and is removed, 4 updates, 1 addition on a non-empty accumulator,
 -- 2 bodies at M and 4 at K; the session exists and reports exactly that
@@ -352,9 +347,9 @@ private def bMM : Operand := { ranks := ["K", "N"], t := ⟨2, [((0 : Int), [((0
     (fun x => (count x.2 "Compute" "payload_mul", count x.2 "Compute" "payload_update", count x.2 "Compute" "payload_add",
       numIters (fileOf x.2 "p" "K" "iter"), numIters (fileOf x.2 "p" "N" "iter"))) == some (5, 5, 1, 3, 5)
 #guard nMul (kernelEvents kMM ⟨2, []⟩ [aMM, bMM]) == 5 && nBody "N" (kernelEvents kMM ⟨2, []⟩ [aMM, bMM]) == 5 &&
-  assertsOk (kernelEvents kMM ⟨2, []⟩ [aMM, bMM])
--- the same kernel into an output created without a shape aborts at the second k
-#guard (kernelSession { kMM with declared := false } ⟨2, []⟩ [aMM, bMM] "p" [] MState.init).isNone
+  assertsOk (wtrOf []) (kernelEvents kMM ⟨2, []⟩ [aMM, bMM])
+-- the same kernel into an output created without a shape runs as well (it only appends), with every trace on
+#guard (kernelSession { kMM with declared := false } ⟨2, []⟩ [aMM, bMM] "p" [("N", "populate_write_0"), ("N", "iter")] MState.init).isSome
 end
 
 end Ft.C15
